@@ -479,7 +479,7 @@ def resolve_unwindset(h, build, workdir):
     return ",".join(chosen)
 
 
-def kani_verify(harnesses, tier, workdir, build=None):
+def kani_verify(harnesses, tier, workdir, build=None, solver=None):
     build = build or Build("O")
     special = [h for h in harnesses if h.meta.get("unwindset") or h.meta.get("unwindloop")]
     if special and len(harnesses) > 1:
@@ -525,6 +525,8 @@ def kani_verify(harnesses, tier, workdir, build=None):
            "-j", str(max(1, min(JOBS, len(harnesses))))]
     for h in harnesses:
         cmd += ["--harness", h.full]
+    if solver:
+        cmd += ["--solver", solver]
     if special:
         extra = ["--cbmc-args"]
         st = special[0].meta.get("unwindstart")
@@ -796,6 +798,28 @@ def main():
                 + (f" ({r['reason']})" if r["reason"] else "")
                 + (f" checks={r['checks_passed']}/{r['checks_total']} covers={r['covers_satisfied']}/{r['covers_total']}"
                    if r["status"] == "discharged" else ""))
+        # ---- thorough tier: diff the verdict of a second SAT back end (kissat) on the cheap harnesses
+        if tier == "thorough" and not args.only and os.environ.get("VERIF_SOLVER2", "kissat") != "none":
+            cheap = [r["h"] for r in results if r["status"] == "discharged" and not r["h"].meta.get("unwindset")
+                     and not r["h"].meta.get("unwindloop") and r["h"].mode == "O"
+                     and float((r.get("cbmc") or {}).get("runtime_decision_procedure_s") or 0) < 60]
+            if cheap:
+                s2 = os.environ.get("VERIF_SOLVER2", "kissat")
+                rc2, oj2, lf2 = kani_verify(cheap, tier, os.path.join(workdir, "solver2"), Build("O"), solver=s2)
+                try:
+                    d2 = json.load(open(oj2))
+                    res2 = {x["harness_id"]: x for x in d2.get("verification_results", {}).get("results", [])}
+                except Exception:
+                    res2 = {}
+                for r in results:
+                    h = r["h"]
+                    if h in cheap:
+                        c2 = classify(h, res2.get(h.full), None, "")
+                        r["solver2"] = {"solver": s2, "status": c2["status"]}
+                        if c2["status"] == "counterexample":
+                            r["status"] = "inconclusive"
+                            r["reason"] = f"SAT back ends disagree: CaDiCaL discharged, {s2} reports a counterexample"
+                        log(f"[{pid}]   {h.name}: second back end {s2}: {c2['status']}")
         # ---- counterexamples: replay natively, then decide
         for r in results:
             if r["status"] != "counterexample":
@@ -1000,6 +1024,7 @@ def write_evidence(pid, tier, seed, hs, results, replays, known_lines, violation
                                             "size_program_expression", "vccs_generated", "vccs_remaining")
                      if k in st},
             "finding_harness_for": h.finding,
+            "second_solver": r.get("solver2"),
         })
     ev = {
         "property_id": pid,
